@@ -110,7 +110,8 @@ class World:
             sp = pr.splan if pr.simple else PLAN_DEFAULT
             pr.ev("init", cls=pr.cfg["cls"], cfgsize=pr.cfg.get("size", -1), ps=str(pr.pool),
                   allps=[str(q.pool) for q in self.pools], sexp=pr.simple_exp if pr.simple else "",
-                  secb=sp["ecb"], sccb=sp["ccb"], sbad=sorted(sp.get("bad", [])))
+                  secb=sp["ecb"], sccb=sp["ccb"], sbad=sorted(sp.get("bad", [])),
+                  ctor=pr.ctor_probe() if pr.simple else [])
 
     def _exc_handler(self, loop, ctx):
         self.loop_errors.append(str(ctx.get("message")))
@@ -149,7 +150,8 @@ class World:
                 sp = pr.splan if pr.simple else PLAN_DEFAULT
                 pr.ev("init", cls=pr.cfg["cls"], cfgsize=pr.cfg.get("size", -1), ps=str(pr.pool),
                       allps=[str(q.pool) for q in self.pools], sexp=pr.simple_exp if pr.simple else "",
-                      secb=sp["ecb"], sccb=sp["ccb"], sbad=sorted(sp.get("bad", [])))
+                      secb=sp["ecb"], sccb=sp["ccb"], sbad=sorted(sp.get("bad", [])),
+                  ctor=pr.ctor_probe() if pr.simple else [])
             elif c == "arm":
                 # arm an operation at a user-code point: "ecb:3" (exact) or "ecb:*" (next point of that kind)
                 self.armed.append([cmd["pt"], cmd["op"], cmd.get("times", 1)])
@@ -287,6 +289,19 @@ class PoolRun:
         else:
             self.pool = TaskPool(**kw)
         self.prefix = "%s_Task-" % (self.pool,)
+
+    @staticmethod
+    def ctor_probe():
+        """C09: a SimpleTaskPool cannot even be constructed with a function that is not a coroutine function."""
+        from asyncio_taskpool import SimpleTaskPool
+
+        def plain(*a, **k):
+            return None
+        try:
+            SimpleTaskPool(plain)
+            return ["(constructed)"]
+        except Exception as e:      # noqa: BLE001
+            return _exc_isa(e)
 
     # -- observation -------------------------------------------------------------------------------
     def obs(self):
